@@ -2137,16 +2137,36 @@ impl Server {
         match request.content.request_type {
             // special case for adding listeners, because we need to register a listener
             Some(RequestType::AddHttpListener(listener)) => {
-                push_queue(self.notify_add_http_listener(&req_id, listener));
+                let address = listener.address.into();
+                let response = self.notify_add_http_listener(&req_id, listener);
+                if !response.is_failure() {
+                    self.reinstall_listener_contents(&req_id, ListenerType::Http, address);
+                }
+                push_queue(response);
             }
             Some(RequestType::AddHttpsListener(listener)) => {
-                push_queue(self.notify_add_https_listener(&req_id, listener));
+                let address = listener.address.into();
+                let response = self.notify_add_https_listener(&req_id, listener);
+                if !response.is_failure() {
+                    self.reinstall_listener_contents(&req_id, ListenerType::Https, address);
+                }
+                push_queue(response);
             }
             Some(RequestType::AddTcpListener(listener)) => {
-                push_queue(self.notify_add_tcp_listener(&req_id, listener));
+                let address = listener.address.into();
+                let response = self.notify_add_tcp_listener(&req_id, listener);
+                if !response.is_failure() {
+                    self.reinstall_listener_contents(&req_id, ListenerType::Tcp, address);
+                }
+                push_queue(response);
             }
             Some(RequestType::AddUdpListener(listener)) => {
-                push_queue(self.notify_add_udp_listener(&req_id, listener));
+                let address = listener.address.into();
+                let response = self.notify_add_udp_listener(&req_id, listener);
+                if !response.is_failure() {
+                    self.reinstall_listener_contents(&req_id, ListenerType::Udp, address);
+                }
+                push_queue(response);
             }
             Some(RequestType::UpdateHttpListener(patch)) => {
                 push_queue(self.notify_update_http_listener(&req_id, patch));
@@ -2245,6 +2265,82 @@ impl Server {
             }
             _other_request => {}
         };
+    }
+
+    /// A listener object starts out empty, while the configuration keeps the
+    /// frontends and certificates of an address when its listener is removed
+    /// (`ConfigState::remove_listener` only drops the listener): a listener
+    /// added again at that address takes them back, as a worker started from
+    /// the same configuration would, so that the routing matches what the
+    /// queries answer. At boot the configuration holds nothing yet when the
+    /// listeners are added.
+    fn reinstall_listener_contents(
+        &mut self,
+        req_id: &str,
+        kind: ListenerType,
+        address: std::net::SocketAddr,
+    ) {
+        let state = &self.config_state;
+        let orders: Vec<RequestType> = match kind {
+            ListenerType::Http => state
+                .http_fronts
+                .values()
+                .filter(|front| front.address == address)
+                .map(|front| RequestType::AddHttpFrontend(front.clone().into()))
+                .collect(),
+            ListenerType::Https => state
+                .certificates
+                .get(&address)
+                .into_iter()
+                .flat_map(|certificates| certificates.values())
+                .map(|certificate| {
+                    RequestType::AddCertificate(sozu_command::proto::command::AddCertificate {
+                        address: address.into(),
+                        certificate: certificate.clone(),
+                        expired_at: None,
+                    })
+                })
+                .chain(
+                    state
+                        .https_fronts
+                        .values()
+                        .filter(|front| front.address == address)
+                        .map(|front| RequestType::AddHttpsFrontend(front.clone().into())),
+                )
+                .collect(),
+            ListenerType::Tcp => state
+                .tcp_fronts
+                .values()
+                .flatten()
+                .filter(|front| front.address == address)
+                .map(|front| RequestType::AddTcpFrontend(front.clone().into()))
+                .collect(),
+            ListenerType::Udp => state
+                .udp_fronts
+                .values()
+                .flatten()
+                .filter(|front| front.address == address)
+                .map(|front| RequestType::AddUdpFrontend(front.clone().into()))
+                .collect(),
+        };
+        for order in orders {
+            let request = WorkerRequest {
+                id: req_id.to_owned(),
+                content: order.into(),
+            };
+            let response = match kind {
+                ListenerType::Http => self.http.borrow_mut().notify(request),
+                ListenerType::Https => self.https.borrow_mut().notify(request),
+                ListenerType::Tcp => self.tcp.borrow_mut().notify(request),
+                ListenerType::Udp => self.udp.borrow_mut().notify(request),
+            };
+            if response.is_failure() {
+                error!(
+                    "{} could not give the new {:?} listener {} what the configuration holds for it: {}",
+                    req_id, kind, address, response.message
+                );
+            }
+        }
     }
 
     fn add_cluster(&mut self, cluster: &Cluster) {
